@@ -112,8 +112,11 @@ def framer_paths(cx, kind, may_raise=None, consts=None, default_kwargs=False):
         fp = FPath()
         fp.path, fp.exit = p, p.exit
         nfind = 0
+        parents = {}
         for i, ev in enumerate(p.ev):
             k = ev.kind
+            if k == 'enter' and ev.a is not None and not isinstance(ev.a, (str, bool)):
+                parents[id(ev.frame)] = ev.a
             if k == 'call':
                 sub = ev._sub
                 if isinstance(sub.func, ast.Name) and sub.func.id == cbname:
@@ -149,7 +152,11 @@ def framer_paths(cx, kind, may_raise=None, consts=None, default_kwargs=False):
             elif k == 'loop' and ev.frame.fid == 0:
                 fp.loops.append((i, ev.a, ev.node))
             elif k == 'raise':
-                fp.raised = (i, ev.a, U(ev.node)[:60], ev.frame.qn)
+                # named after the nearest enclosing method that is not a private helper (a raise moved into `_helper` is the same raise)
+                fr_ = ev.frame
+                while fr_ is not None and getattr(fr_, 'func', None) is not None and fr_.func.name.startswith('_') and not fr_.func.name.startswith('__') and id(fr_) in parents:
+                    fr_ = parents[id(fr_)]
+                fp.raised = (i, ev.a, U(ev.node)[:60], (fr_ or ev.frame).qn)
         out.append(fp)
     return cls, f, out
 
